@@ -578,6 +578,53 @@ func c02Dispatcher(c *Ctx, r *Report, fn *ssa.Function, tcp, control bool) map[s
 		}
 		rep("R2.3", okk, "a response value can only be returned when bit 7 of the function byte is clear", truncate(rs.state.String(), 300), "exception-as-response", c.pos(rs.instr.Pos()))
 	}
+	// R2.6 on the dispatcher: a frame of a supported function code whose length lies between
+	// the smallest reply of that function and the ADU size (260 TCP / 256 RTU) reaches that
+	// function's parser: every return the dispatcher (or a helper of it) makes on its own — not
+	// forwarded from a per-function parser — is unreachable for such a frame.
+	isResp := strings.Contains(fn.Signature.Results().At(0).Type().String(), "Response")
+	if isResp {
+		minPDU := map[int64]int64{1: 3, 2: 3, 3: 4, 4: 4, 5: 5, 6: 5, 15: 5, 16: 5, 17: 4, 23: 4}
+		for _, sp := range specTable {
+			lo, hi := 7+minPDU[sp.fc], int64(260)
+			if !tcp {
+				lo, hi = 1+minPDU[sp.fc]+2, 256
+			}
+			prem := Conj{atomEQ(fcb, affConst(sp.fc)), atomGE(data.ln, affConst(lo)), atomLE(data.ln, affConst(hi))}
+			if tcp {
+				// well-formed MBAP header
+				prem = append(prem, atomEQ(fr.frameBytes(data, affConst(2), 2, true), affConst(0)),
+					atomEQ(fr.frameBytes(data, affConst(4), 2, true), data.ln.addc(-6)))
+			}
+			bad := ""
+			for _, site := range expandedReturns(fr, 0) {
+				if perFn[site.fr.fn] {
+					continue
+				}
+				// a return that follows a call of a per-function parser hands on that parser's verdict
+				after := false
+				for _, b := range site.fr.fn.Blocks {
+					for _, in := range b.Instrs {
+						if cl, ok := in.(*ssa.Call); ok && perFn[cl.Common().StaticCallee()] && instrBefore(cl, site.rs.instr) {
+							after = true
+						}
+					}
+				}
+				if after {
+					continue
+				}
+				for _, cj := range site.rs.state {
+					if !infeasible(cj.with(prem...)) {
+						bad = fmt.Sprintf("return at %s reachable with %s", c.pos(site.rs.instr.Pos()), truncate(cj.String(), 200))
+					}
+				}
+			}
+			if !control {
+				r.instance("R2.6", 1)
+			}
+			rep("R2.6", bad == "", fmt.Sprintf("a reply of function %d with a length between %d and %d bytes is handed to that function's parser (the dispatcher itself refuses none)", sp.fc, lo, hi), bad, fmt.Sprintf("dispatcher-refuses:%d", sp.fc), c.pos(fn.Pos()))
+		}
+	}
 	parsers := map[*ssa.Function]parserInfo{}
 	for _, pi := range packetParsers(c, pkgRelOf(c, fn), false) {
 		parsers[pi.fn] = pi
